@@ -754,7 +754,13 @@ def kd_structure(P, rep, rule="KD"):
         mids = [x for x in F.walk() if x.get("k") == "VarDecl" and x.get("n") == "mid" and x.get("c")]
         B = P.func("WorldBuilder::KDTree::KDTree::create_tree")
         midb = [x for x in B.walk() if x.get("k") == "VarDecl" and x.get("n") == "mid" and x.get("c")]
-        if not (len(mids) == 1 and len(midb) == 1 and R(mids[0]["c"][0]) == R(midb[0]["c"][0])):
+
+        def range_roles(G):
+            # the two size_t range parameters, in declaration order: lower and upper end of the node range
+            ks = [pk for pk in G.params if (P.d(pk).get("t") or "").replace("const ", "").strip() in ("size_t", "std::size_t", "unsigned long")]
+            return norm.Subst(bind={ks[0]: "LO", ks[1]: "HI"}) if len(ks) >= 2 else None
+        RR = lambda G, n_: norm.render(P, n_, nocast=True, subst=range_roles(G)).replace(" ", "")
+        if not (len(mids) == 1 and len(midb) == 1 and RR(F, mids[0]["c"][0]) == RR(B, midb[0]["c"][0])):
             problems.append("build and search compute different mid: %s vs %s" % (R(midb[0]["c"][0]) if midb else "?", R(mids[0]["c"][0]) if mids else "?"))
         if problems:
             for pr in problems:
